@@ -11,6 +11,7 @@ import (
 	"regexp"
 	"runtime"
 	"strings"
+	"sync"
 	"testing/synctest"
 	"time"
 
@@ -76,6 +77,12 @@ type Script struct {
 	Steps []Step `json:"steps"`
 	// TailMs: after the last step keep observing for this much virtual time.
 	TailMs int64 `json:"tail_ms,omitempty"`
+	// EnforceKeepAlive: the broker behaves like a conforming MQTT server with
+	// respect to time: it closes a connection on which no CONNECT arrives within
+	// ConnectWaitMs, and one that stays silent for 1.5 x the keep-alive of its
+	// CONNECT [MQTT-3.1.2-24].
+	EnforceKeepAlive bool  `json:"enforce_keepalive,omitempty"`
+	ConnectWaitMs    int64 `json:"connect_wait_ms,omitempty"`
 }
 
 // Event directions.
@@ -160,6 +167,8 @@ type Session struct {
 	step    int
 	Logger  util.Logger
 	endSeen bool
+	stopEnforce func()
+	evMu        sync.Mutex
 }
 
 // Start launches a session (must be called inside a bubble).
@@ -202,12 +211,16 @@ func (s *Session) now() (int64, int64) {
 }
 
 func (s *Session) ev(e Event) {
+	s.evMu.Lock()
+	defer s.evMu.Unlock()
 	e.T, e.Ns = s.now()
 	e.Step = s.step
 	s.tr.Events = append(s.tr.Events, e)
 }
 
 func (s *Session) evAt(e Event, at time.Time) {
+	s.evMu.Lock()
+	defer s.evMu.Unlock()
 	d := at.Sub(s.start)
 	e.T, e.Ns = int64(d/time.Millisecond), int64(d)
 	e.Step = s.step
@@ -515,10 +528,83 @@ func (s *Session) collectQuiet() {
 	s.collect()
 }
 
+// enforce starts the time-enforcing part of the broker: a watchdog that closes
+// the connection when the gateway has been silent for too long.
+func (s *Session) enforce(connectWait time.Duration) {
+	var (
+		mu        sync.Mutex
+		last      = time.Now()
+		keepAlive time.Duration // 0 until a CONNECT was seen
+		sawConn   bool
+		ps        mqttref.Parser
+	)
+	stop := make(chan struct{})
+	kick := make(chan struct{}, 1)
+	s.stopEnforce = func() { close(stop) }
+	s.MQ.OnWrite = func(b []byte) {
+		defer func() {
+			select {
+			case kick <- struct{}{}:
+			default:
+			}
+		}()
+		mu.Lock()
+		defer mu.Unlock()
+		last = time.Now()
+		for _, p := range ps.Feed(b) {
+			if p.Type == mqttref.CONNECT {
+				sawConn = true
+				keepAlive = time.Duration(p.KeepAlive) * time.Second
+			}
+		}
+	}
+	go func() {
+		for {
+			mu.Lock()
+			var deadline time.Time
+			switch {
+			case !sawConn:
+				deadline = s.start.Add(connectWait)
+			case keepAlive > 0:
+				deadline = last.Add(keepAlive * 3 / 2)
+			}
+			mu.Unlock()
+			var wait <-chan time.Time
+			if !deadline.IsZero() {
+				d := time.Until(deadline)
+				if d <= 0 {
+					s.evAt(Event{Dir: EV, What: "BROKER-DROPS (keep-alive enforcement)"}, time.Now())
+					s.MQ.Close()
+					return
+				}
+				wait = time.After(d)
+			} else {
+				wait = time.After(time.Hour)
+			}
+			select {
+			case <-wait:
+			case <-kick:
+			case <-stop:
+				return
+			case <-s.Done:
+				return
+			}
+		}
+	}()
+}
+
 // Run interprets a whole script (inside a bubble).
 func Run(sc Script) *Trace {
 	s := Start(sc.Cfg, nil, "s")
 	s.auto = sc.Auto
+	if sc.EnforceKeepAlive {
+		cw := time.Duration(sc.ConnectWaitMs) * time.Millisecond
+		if cw == 0 {
+			cw = 5 * time.Second
+		}
+		s.enforce(cw)
+		defer s.stopEnforce()
+	}
 	s.Settle()
 	for i, st := range sc.Steps {
 		s.Apply(i, st)
